@@ -311,9 +311,57 @@ class Table:
             if r not in atoms:
                 missing.append(r)
         for r in e.get("requires_re", []):
+            if r.startswith("caller:"):
+                # a fact the reviewed reason takes from the callers: it must dominate every call site of the
+                # function containing the construct (closures are lifted to the place where they are created)
+                sites = call_sites_of(prog, site.fn)
+                if not sites:
+                    missing.append("/%s/ (no call site of %s found)" % (r, site.fn.path))
+                for f, bb in sites:
+                    ca = context_atoms(prog, f, bb)
+                    if not any(re.search(r[len("caller:"):], a) for a in ca):
+                        missing.append("/%s/ at the call in %s (%s)" % (r, f.path, f.loc(bb)))
+                continue
             if not any(re.search(r, a) for a in atoms):
                 missing.append("/" + r + "/")
         return missing, atoms
+
+
+def closure_creation(prog, clo):
+    par = prog.fn(clo.parent) if clo.parent else None
+    if par is None:
+        return None
+    for b2, blk in enumerate(par.blocks):
+        for st in blk["stmts"]:
+            if st["k"] == "assign" and st["rv"].get("k") == "aggr" and st["rv"].get("agg") == "closure" and M.strip_generics(st["rv"].get("closure", "")) == clo.path:
+                return par, b2
+    return None
+
+
+def context_atoms(prog, f, bb, depth=0):
+    at = [a.text for a in C.conditions(prog, f, bb)]
+    if f.kind == "Closure" and depth < 6:
+        c = closure_creation(prog, f)
+        if c:
+            at = context_atoms(prog, c[0], c[1], depth + 1) + at
+    return at
+
+
+def call_sites_of(prog, fn):
+    """Call sites of `fn` in the workspace; for a closure, the place where it is created."""
+    if fn.kind == "Closure":
+        c = closure_creation(prog, fn)
+        return [c] if c else []
+    idx = getattr(prog, "_call_sites", None)
+    if idx is None:
+        idx = {}
+        for f in prog.fns.values():
+            for bb, t in f.calls():
+                if f.blocks[bb].get("cleanup"):
+                    continue
+                idx.setdefault(M.strip_generics(M.callee_of(t)), []).append((f, bb))
+        prog._call_sites = idx
+    return idx.get(fn.path, [])
 
 
 def decide_sites(ctx, rule, prog, fns, table=None, label=""):
